@@ -226,14 +226,16 @@ func C17(c *Ctx) {
 			}
 			for i := 0; i < 2; i++ {
 				x, y := t.Args[i], t.Args[1-i]
-				if x.IsField("parser.Parser.srcPath") && y.IsField("token.Position.Filename") && y.Args[0].IsCallTo("(*go/token.FileSet).Position") &&
+				// the unadjusted position: PositionFor(pos, false) – a //line directive must not move a declaration to another file
+				if x.IsField("parser.Parser.srcPath") && y.IsField("token.Position.Filename") && y.Args[0].IsCallTo("(*go/token.FileSet).PositionFor") && len(y.Args[0].Args) == 3 &&
+					y.Args[0].Args[2].Is("const", "false") &&
 					y.Args[0].Args[1].Kind == "invoke" && y.Args[0].Args[1].Name == "(types.Object).Pos" && y.Args[0].Args[1].Args[0].String() == objS {
 					return true
 				}
 			}
 			return false
 		}
-		r.Check("C17-1", key+":declared-in-input-file", c.InstrPos(a), d.Implies(sameFile), "an entry can be created for an interface declared in another file of the package; reach: "+d.Describe(c.O))
+		r.Check("C17-1", key+":declared-in-input-file", c.InstrPos(a), d.Implies(sameFile), "an entry can be created for an interface declared in another file of the package (the test must compare the parsed file's name with the UNADJUSTED position PositionFor(obj.Pos(), false): Position() follows //line directives); reach: "+d.Describe(c.O))
 		named := c.M(true, eqConst(func(t *core.Term) bool {
 			return t.Kind == "invoke" && t.Name == "(types.Object).Name" && t.Args[0].String() == objS
 		}, `"Convergen"`))
